@@ -64,10 +64,8 @@ def array_kind_decided_by_all_items(repo, rep):
         for fn in [f.node] + nested:
             # an encoder: returns VALUE_REFERENCE for some value and builds
             # arrays from calls of itself
-            rets = [x for x in walk_no_nested(fn) if isinstance(x, ast.Return)
-                    and isinstance(x.value, ast.Call)]
-            kinds = {(dotted(x.value.func) or '').split('.')[-1]
-                     for x in rets}
+            kinds = {(dotted(x.func) or '').split('.')[-1]
+                     for x in walk_no_nested(fn) if isinstance(x, ast.Call)}
             if not ({'VALUE_ARRAY', 'VALUE_REFARRAY'} & kinds and
                     'VALUE_REFERENCE' in kinds):
                 continue
@@ -75,6 +73,10 @@ def array_kind_decided_by_all_items(repo, rep):
                                  inline=False) or []
             for p_ in paths:
                 v = p_.value
+                for _ in range(3):
+                    # `node = VALUE_ARRAY(...)` ... `return node`
+                    if isinstance(v, ast.Name) and v.id in p_.env:
+                        v = p_.env[v.id][0]
                 if not (isinstance(v, ast.Call) and
                         (dotted(v.func) or '').split('.')[-1] in (
                             'VALUE_ARRAY', 'VALUE_REFARRAY') and v.args):
@@ -129,22 +131,52 @@ def array_kind_decided_by_all_items(repo, rep):
                         if tys and tys <= REFS:
                             return dotted(e.func), neg
                     return None
-                facts = [a for t0, p0 in p_.facts
-                         for a in GuardWalker._atoms(t0, p0)]
+                # propositional: in every truth assignment of the atomic
+                # conditions that is consistent with the path's facts, a
+                # quantified test over all items says what is needed
+                # (`if has_refs and not all(refs): raise` followed by
+                # `if has_refs:` establishes all(refs))
+                from ..cfg import prop_models
+
+                def leaves_of(e, acc):
+                    if isinstance(e, ast.BoolOp):
+                        for v_ in e.values:
+                            leaves_of(v_, acc)
+                    elif isinstance(e, ast.UnaryOp) and \
+                            isinstance(e.op, ast.Not):
+                        leaves_of(e.operand, acc)
+                    else:
+                        acc.append(e)
+                    return acc
+                qleaf = {}
+                rel = []
+                for t0, p0 in p_.facts:
+                    ls = leaves_of(t0, [])
+                    hit = False
+                    for l_ in ls:
+                        q = quantified(l_)
+                        if q is not None:
+                            qleaf[norm(l_, 300)] = q
+                            hit = True
+                    if hit:
+                        rel.append((t0, p0))
                 ok = False
-                for t, pol in facts:
-                    q = quantified(t)
-                    if q is None:
-                        continue
-                    fn_, neg = q
-                    # "no item is a reference" / "every item is one"
-                    none_ref = (fn_ == 'any' and not neg and not pol) or \
-                        (fn_ == 'all' and neg and pol)
-                    all_ref = (fn_ == 'all' and not neg and pol) or \
-                        (fn_ == 'any' and neg and not pol)
-                    if (kind == 'VALUE_ARRAY' and none_ref) or \
-                            (kind == 'VALUE_REFARRAY' and all_ref):
-                        ok = True
+                pm = prop_models(rel) if rel else None
+                if pm is not None and pm[1]:
+                    def says(asg):
+                        for k_, (fn_, neg) in qleaf.items():
+                            b_ = asg.get(k_)
+                            none_ref = (fn_ == 'any' and not neg and
+                                        b_ is False) or \
+                                (fn_ == 'all' and neg and b_ is True)
+                            all_ref = (fn_ == 'all' and not neg and
+                                       b_ is True) or \
+                                (fn_ == 'any' and neg and b_ is False)
+                            if (kind == 'VALUE_ARRAY' and none_ref) or \
+                                    (kind == 'VALUE_REFARRAY' and all_ref):
+                                return True
+                        return False
+                    ok = all(says(m_) for m_ in pm[1])
                 r10.ob(ok, '%s|%s' % (f.qualname, kind))
                 if not ok:
                     rep.finding(r10, f.qualname + '.<locals>.' + fn.name
